@@ -1,6 +1,7 @@
 package main
 
 import (
+	"encoding/base64"
 	"encoding/json"
 	"fmt"
 	"os"
@@ -8,6 +9,7 @@ import (
 	"sort"
 	"strings"
 	"time"
+	"unicode/utf8"
 
 	"verif/internal/engine"
 )
@@ -23,6 +25,52 @@ type ReplayDoc struct {
 	Expected string            `json:"expected,omitempty"`
 	Other    *ReplayDoc        `json:"other,omitempty"` // the second execution of a metamorphic pair
 	Note     string            `json:"note,omitempty"`
+}
+
+// Source files that are not valid UTF-8 are stored base64-encoded under files_b64 (JSON cannot carry them).
+type replayDocWire ReplayDoc
+
+func (d ReplayDoc) MarshalJSON() ([]byte, error) {
+	w := struct {
+		replayDocWire
+		FilesB64 map[string]string `json:"files_b64,omitempty"`
+	}{replayDocWire: replayDocWire(d)}
+	for k, v := range d.Files {
+		if !utf8.ValidString(v) {
+			if w.FilesB64 == nil {
+				w.FilesB64 = map[string]string{}
+				w.Files = map[string]string{}
+				for k2, v2 := range d.Files {
+					w.Files[k2] = v2
+				}
+			}
+			delete(w.Files, k)
+			w.FilesB64[k] = base64.StdEncoding.EncodeToString([]byte(v))
+		}
+	}
+	return json.Marshal(w)
+}
+
+func (d *ReplayDoc) UnmarshalJSON(b []byte) error {
+	var w struct {
+		replayDocWire
+		FilesB64 map[string]string `json:"files_b64,omitempty"`
+	}
+	if err := json.Unmarshal(b, &w); err != nil {
+		return err
+	}
+	*d = ReplayDoc(w.replayDocWire)
+	for k, v := range w.FilesB64 {
+		raw, err := base64.StdEncoding.DecodeString(v)
+		if err != nil {
+			return err
+		}
+		if d.Files == nil {
+			d.Files = map[string]string{}
+		}
+		d.Files[k] = string(raw)
+	}
+	return nil
 }
 
 func replay(path string) int {
@@ -185,7 +233,8 @@ func (x *ctx) validateAgainstReal(recs []execRec, n int) {
 		go func() {
 			defer func() { <-sem }()
 			rr := x.realStable(rec.cfg, rec.files, rec.argv)
-			same := rr.Stdout == rec.out
+			// the in-process result travels as JSON: bytes that are not valid UTF-8 arrive as U+FFFD
+			same := rr.Stdout == rec.out || string([]rune(rr.Stdout)) == rec.out
 			for _, a := range rec.argv {
 				if a == "--define" { // records of --define form an unordered set (C05)
 					same = sortedLines(rr.Stdout) == sortedLines(rec.out)
